@@ -24,6 +24,7 @@ import (
 	"os"
 	"os/exec"
 	"runtime"
+	"strconv"
 	"strings"
 	"time"
 
@@ -686,6 +687,9 @@ func c03CoqInput(in *c03In, b c03Body, tok, call string) string {
 	}
 	enc := map[string]string{"": "C03.EncNone", "br": "C03.EncUnknown", "zstd": "C03.EncBad", "gzip": "C03.EncBad"}[in.Enc]
 	calltok := map[string]string{"": "C03.KAbsent", "absent": "C03.KAbsent", "valid": "C03.KValid", "garbage": "C03.KGarbage", "other_call": "C03.KOtherCall"}[in.CallTok]
+	if strings.HasPrefix(in.CallTok, "short:") {
+		calltok = "C03.KGarbage"
+	}
 	ins := map[string]string{"": "C03.IValid", "valid": "C03.IValid", "cancel": "C03.ICancel", "wrong": "C03.IWrong"}[in.Ins]
 	return App("C03.Build_input", route, Bool(in.PV), Bool(in.Upload), Bool(in.Introspect), c03S(in.Path), ct, enc,
 		c03CoqBody(b, tok, call), c03CoqTok(in.Tok), calltok, Bool(in.CacheHit), ins, Bool(in.Follow))
@@ -757,11 +761,19 @@ func c03Tokens(in *c03In) (h *vgirpc.HttpServer, tok, call string) {
 	case "short":
 		tok = tok[:min(16, len(tok))]
 	}
+	if strings.HasPrefix(in.Tok, "short:") { // every envelope length around the nonce / version-byte / tag boundaries
+		n, _ := strconv.Atoi(strings.TrimPrefix(in.Tok, "short:"))
+		tok = tok[:min(n, len(tok))]
+	}
 	switch in.CallTok {
 	case "garbage":
 		call = "AAAA"
 	case "other_call":
 		_, call = mintOn(minter, method)
+	}
+	if strings.HasPrefix(in.CallTok, "short:") {
+		n, _ := strconv.Atoi(strings.TrimPrefix(in.CallTok, "short:"))
+		call = call[:min(n, len(call))]
 	}
 	return h, tok, call
 }
@@ -1255,6 +1267,13 @@ func c03Boundary() []c03In {
 			c03In{Route: "http_exchange", Path: "p_only", Meta: tm, Rows: 0, Cols: c03Cols{K: "none"}, Tok: "own", CallTok: "valid", CacheHit: hit, Tag: "boundary"},
 			c03In{Route: "http_exchange", Path: "dyn", Meta: tm, Rows: 0, Cols: c03Cols{K: "none"}, Tok: "own", CallTok: "valid", CacheHit: hit, Tag: "boundary"},
 			c03In{Route: "http_exchange", Path: "dyn", Meta: tm, Rows: 1, Cols: x, Tok: "other:e_only", CallTok: "valid", CacheHit: hit, Tag: "legacy-cross-method-token"})
+	}
+	// sealed-token envelopes cut to every length (in whole base64 quanta, so the text stays canonical) around the
+	// version byte / nonce / tag boundaries: each must be answered 400, none may reach a slice expression unguarded
+	for n := 4; n <= 72; n += 4 {
+		out = append(out,
+			c03In{Route: "http_exchange", Path: "e_only", Meta: tm, Rows: 1, Cols: x, Tok: fmt.Sprintf("short:%d", n), CallTok: "valid", CacheHit: true, Tag: "boundary-token-length"},
+			c03In{Route: "http_exchange", Path: "e_only", Meta: tm, Rows: 1, Cols: x, Tok: "own", CallTok: fmt.Sprintf("short:%d", n), CacheHit: false, Tag: "boundary-calltoken-length"})
 	}
 	for _, rt := range []string{"pipe", "http_unary", "http_init", "http_exchange", "http_upload"} {
 		m := map[string]string{"pipe": "u_int", "http_unary": "u_int", "http_init": "p_only", "http_exchange": "e_only", "http_upload": "__upload_url__"}[rt]
